@@ -454,3 +454,9 @@ def _transport_paused(w: Any) -> bool:
 
 
 execute = std_execute(build, oracle)
+
+
+# wave h documentation (what was added to the enumeration; see DESIGN.md 11.0)
+_WAVE_H = '+ close family over cleartext HTTP/2 (h2pk: the stream has send_eof()): pause x goaway, midpause x {goaway,eof,reset}; after goaway/eof/reset no send of ANY application of the connection stays parked'
+RULE = RULE + " " + _WAVE_H
+BOUNDS_DOC = {k: v + " " + _WAVE_H for k, v in BOUNDS_DOC.items()}
